@@ -75,7 +75,7 @@ St0 == [nodes |-> <<>>, subj |-> <<>>, subs |-> <<>>, multi |-> <<>>,
         statcells |-> <<>>, futs |-> <<<<>>, <<>>>>, streams |-> <<<<>>, <<>>>>, timerlog |-> <<>>,
         now |-> 0, log |-> <<>>, cnt |-> Cnt0,
         stack |-> <<>>, vs |-> <<>>, ret |-> U, fault |-> "", arc |-> FALSE,
-        cur |-> 1, conc |-> FALSE, overlap |-> FALSE, callno |-> 0, pcre |-> <<>>,    \* pcre: per probe <<thread, call>> that created it       \* running thread; multi-threaded instance; two threads inside one callback
+        cur |-> 1, conc |-> FALSE, overlap |-> FALSE, callno |-> 0, pcre |-> <<>>, hcre |-> <<>>, tcre |-> <<>>,    \* pcre: per probe <<thread, call>> that created it       \* running thread; multi-threaded instance; two threads inside one callback
         nprobe |-> 0]
 
 Push(st, frs)     == [st EXCEPT !.stack = frs \o @]
